@@ -409,8 +409,9 @@ pub fn run(ctx: Ctx) -> ! {
     let mut total = BfsStats::default();
     let mut per_run = vec![];
     let budget = ctx.pick(55.0, 1100.0);
-    for (name, cond) in configs {
-        for (reduced, depth) in [(false, full_depth), (true, reduced_depth)] {
+    // full alphabets first: if the wall cap ever cuts the run, it cuts the deeper sub-alphabet exploration
+    for (reduced, depth) in [(false, full_depth), (true, reduced_depth)] {
+        for (name, cond) in configs.iter() {
             let m = ClockMachine::new(cond.clone(), reduced);
             {
                 // root state sanity: the invariant relating both clocks holds at genesis
